@@ -84,6 +84,14 @@ func Conforming(t *rapid.T, cfg Cfg) M {
 		if b.chance(3, "selfnot") {
 			b.comps["schemas"]["Loop"] = M{"not": ref("schemas", "Loop")}
 		}
+		if b.chance(2, "lasso") {
+			// a keyword-less wrapper that leads into the cycle without being part of it, and a two-schema
+			// cycle entered from outside
+			b.comps["schemas"]["LoopEntry"] = M{rapid.SampledFrom([]string{"allOf", "anyOf", "oneOf"}).Draw(b.t, "lassokw"): []any{ref("schemas", "Loop")}}
+			b.comps["schemas"]["LoopA"] = M{"anyOf": []any{ref("schemas", "LoopB"), M{"type": "string"}}}
+			b.comps["schemas"]["LoopB"] = M{"allOf": []any{ref("schemas", "LoopA")}}
+			b.comps["schemas"]["LoopEntry2"] = M{"oneOf": []any{ref("schemas", "LoopA")}}
+		}
 	}
 	if cfg.Unusual && b.chance(2, "recursive") {
 		b.comps["schemas"]["Rec"] = M{"type": "object", "properties": M{"next": ref("schemas", "Rec"), "v": M{"type": "integer"}, "list": M{"type": "array", "items": ref("schemas", "Rec")}}}
